@@ -47,6 +47,10 @@ def case(ctx, i):
         feat = "swapped-pointer-members"
     if any(has_self_pointer(pr.p, e.type_name) for e in pr.expects if e.type_name):
         feat = "selfptr-member"
+    rn = {a for e in pr.expects if e.kind == "rename-typedef" for a in e.affected}
+    cv = {a for e in pr.expects if e.kind == "param-top-cv" for a in e.affected}
+    if rn & cv:
+        feat = "typedef-rename-plus-top-cv-on-one-function"
     if dflt.rc != leaf.rc:
         r.violate("oracle:C13:status-differs:%s-vs-%s:%s" % (dflt.rc, leaf.rc, feat),
                   "default mode exits %s, leaf mode %s (%s %s)" % (dflt.rc, leaf.rc, " ".join(extra), what), default=dflt.brief(), leaf=leaf.brief())
